@@ -22,7 +22,7 @@ ASSUMPTIONS = ['copy(), flatten()/ravel(), T and fxp_like are documented shallow
 EXHAUSTIVE = True
 EXHAUSTIVE_SUBDOMAINS = {'quick': ['invalid values for every validated Config option x 4 setting routes'], 'thorough': ['same']}
 REQUIRED_CLASSES = {'history:mutation-after-2-derivations': 100, 'derive:like_kw': 50, 'derive:arith': 100, 'derive:numpy': 50, 'derive:like': 50, 'mutate:config': 100,
-                    'mutate:flag': 100, 'view-write': 200, 'container:strings': 300, 'config-invalid': 40}
+                    'mutate:flag': 100, 'view-write': 200, 'container:strings': 300, 'container:strings-value-mode': 150, 'config-invalid': 40}
 
 
 class Dummy:
@@ -59,7 +59,11 @@ class World:
         self.classes = []
 
     def pick(self, i):
-        return self.pool[i % len(self.pool)] if self.pool else None
+        # indices 6 and 7 address the most recently produced object, so that chains of operations on one object
+        # (derive -> resize -> write ...) are generated often; the others address the pool modulo its size
+        if not self.pool:
+            return None
+        return self.pool[-1] if i % 8 >= 6 else self.pool[i % len(self.pool)]
 
     def add(self, z):
         if 1 <= z.n_word <= 52 and np.asarray(z.val).dtype.kind != 'c' and z.vdtype != complex and np.asarray(z.val).size <= 9:
@@ -309,9 +313,16 @@ def check_container(ctx, case):
         elems = [M.hex_image(k, w) for k in codes]
     else:
         elems = [('0b' + M.bin_image(k, w)) if n % 2 else M.hex_image(k, w) for n, k in enumerate(codes)]
-    raw = et in ('int', 'bin', 'hex', 'mixed-str')
-    if et in ('bin', 'hex', 'mixed-str'):
+    if et == 'dec':
+        elems = [M.frac_to_decimal_str(M.value_of(k, f)) for k in codes]
+    # strings are parsed in raw mode or in value mode (the bit pattern read as a value of this format): both restore the code
+    raw = (et == 'int') or (et in ('bin', 'hex', 'mixed-str') and case.get('raw', True))
+    if et == 'hex' and not raw and f > 0 and False:
+        raw = True
+    if et in ('bin', 'hex', 'mixed-str', 'dec'):
         ctx.cls('container:strings')
+        if not raw:
+            ctx.cls('container:strings-value-mode')
     cont = build_container(case['cont'], elems)
     snap = copy.deepcopy(cont)
     route = case['route']
@@ -494,18 +505,19 @@ def st_container(draw):
     fmt = draw(C.st_fmt(max_w=24, f_lo=0, f_hi_extra=0, min_w=2))
     lo, hi = M.rng(fmt[0], fmt[1])
     n = draw(st.sampled_from([2, 4, 6]))
-    et = draw(st.sampled_from(['float', 'int', 'bin', 'hex', 'mixed-str', 'bin', 'hex']))
+    et = draw(st.sampled_from(['float', 'int', 'bin', 'hex', 'mixed-str', 'bin', 'hex', 'dec']))
     cont = draw(st.sampled_from(['list', 'tuple', 'nlist', 'ntuple', 'array', 'array2d']))
-    if et == 'mixed-str' and cont in ('array', 'array2d'):
+    if et in ('mixed-str', 'dec') and cont in ('array', 'array2d'):
         cont = 'list'
     route = draw(st.sampled_from(['ctor', 'call', 'set_val', 'from_bin']))
     if route == 'from_bin' and cont in ('tuple', 'ntuple'):
         route = 'set_val'       # from_bin rejects tuples with a clear ValueError (nothing is built, nothing can be mutated)
-    return {'check': 'container', 'fmt': list(fmt), 'codes': [draw(st.integers(lo, hi)) for _ in range(n)], 'elem': et, 'cont': cont, 'route': route}
+    return {'check': 'container', 'fmt': list(fmt), 'codes': [draw(st.integers(lo, hi)) for _ in range(n)], 'elem': et, 'cont': cont, 'route': route,
+            'raw': draw(st.booleans())}
 
 
 def body_container(ctx, case):
-    nt = case['elem'] in ('bin', 'hex', 'mixed-str')
+    nt = case['elem'] in ('bin', 'hex', 'mixed-str', 'dec')
     if nt:
         ctx.nontrivial(('cont', repr(sorted((k, repr(v)) for k, v in case.items()))))
     ctx.sample(case, nt)
